@@ -151,7 +151,7 @@ func c07ClassCover(n int) map[int]map[uint64]bool {
 		fields, _ := c07Fields(b)
 		inFile := map[string]bool{}
 		for _, f := range fields {
-			cls := f.Struct + ":" + f.Kind + fmt.Sprintf(":w%d", f.Width)
+			cls := f.Struct + ":" + f.Kind + fmt.Sprintf(":w%d", f.Width) + ":" + f.ctx
 			if inFile[cls] || count[cls] >= n {
 				continue
 			}
@@ -186,6 +186,7 @@ func c07Seed(c *ev.Ctx, k int) ([]byte, string, error) {
 type c07Field struct {
 	specdec.Field
 	own uint64 // start of the structure the field lives in
+	ctx string // for fields of object header messages: what the object is (layout / type class)
 }
 
 func c07Fields(b []byte) ([]c07Field, []specdec.Extent) {
@@ -194,9 +195,20 @@ func c07Fields(b []byte) ([]c07Field, []specdec.Extent) {
 		return nil, nil
 	}
 	sf.TouchGlobalHeaps()
+	ctxOf := map[string]string{} // object path -> context
 	sf.Walk(func(p string, o *specdec.Object, l *specdec.Link) {
 		if o != nil && o.Kind == "dataset" {
 			_, _ = sf.ReadData(o) // visits chunk indexes
+			cx := "dataset"
+			if o.Layout != nil {
+				cx += ":" + o.Layout.Class
+			}
+			if o.Type != nil {
+				cx += fmt.Sprintf(":class%d", o.Type.Class)
+			}
+			ctxOf[p] = cx
+		} else if o != nil {
+			ctxOf[p] = o.Kind
 		}
 	})
 	ext := append([]specdec.Extent(nil), sf.Extents...)
@@ -217,6 +229,9 @@ func c07Fields(b []byte) ([]c07Field, []specdec.Extent) {
 		for _, x := range ext {
 			if x.Start <= f.Off && f.Off < x.End {
 				cf.own = x.Start
+				if strings.HasPrefix(f.Struct, "msg:") || f.Struct == "OHDR" || f.Struct == "OCHK" {
+					cf.ctx = ctxOf[x.Owner]
+				}
 			}
 		}
 		out = append(out, cf)
@@ -250,7 +265,8 @@ func c07Values(f c07Field, size uint64, root uint64, ext []specdec.Extent) []uin
 	case "version", "type", "flags", "id":
 		vals = []uint64{0, 1, 2, 3, 4, 5, 0x7f, 0x80, max}
 	default:
-		vals = append(vals, size, size-1, size+1, f.own, f.Off, root, 3, 7, 8, 0xff, 0x100, 0xffff, 0x10000, 0xffffffff, 1<<32, 1<<31)
+		vals = append(vals, size, size-1, size+1, f.own, f.Off, root, 3, 7, 8, 0xff, 0x100, 0xffff, 0x10000, 0xffffffff, 1<<32, 1<<31,
+			1<<62, 1<<61, 1<<60, 1<<50, 1<<40) // products with small element sizes wrap around 2^64
 		if f.Kind == "address" || f.Kind == "offset" {
 			// addresses of two other structures (type confusion, cycles through siblings)
 			for i, x := range ext {
@@ -600,7 +616,7 @@ func c07Run(c *ev.Ctx) {
 var C07 = &ev.Property{
 	ID:    "C07",
 	Level: "fault_enumeration",
-	Rule: "seed files: every file of the bundled corpus up to 256 KiB plus 24 fixed library-written files (superblock 0/2/3, all layouts, filters, variable-length data, dense attributes and groups, links). (1) Single-field corruption, enumerated and independent of the seed: for every structural field the independent decoder maps in a seed file (signatures, versions, flags, sizes, counts, addresses, offsets, types, checksums; also inside chunk indexes, heaps and B-trees) each value of a boundary set {0,1,2,3,7,8, max/2, max/2+1, max-1, max, 0xff.., powers of two, file size and +-1, the field's own offset, the address of its own structure (self reference / cycles), the root object address, addresses of other structures} is written into a copy (class cover: for every field class - structure:kind:width, e.g. GCOL:size:w8 - the complete value set on the first 3 (thorough: 30) seed files that contain the class; plus 40 (thorough: 3200) further (field,value) pairs spread evenly over each seed file). (2) Seeded random mutations: 1-16 bit flips or byte sets, splices between files, truncation, random bodies behind a valid prefix, zeroed and duplicated ranges. Every input is opened and read completely through the public reader inside a process with a 4 GiB address-space limit and a CPU budget of 20 s per input. Violations: recovered panic, death of the process (out of memory, stack overflow, other fatal errors), CPU budget overrun, more than 5 CPU-seconds + ten times the intact seed's, cumulative allocation above 512 MiB + 4096 x file size + twice what the intact seed needs, a canary file that reads differently afterwards. " +
+	Rule: "seed files: every file of the bundled corpus up to 256 KiB plus 24 fixed library-written files (superblock 0/2/3, all layouts, filters, variable-length data, dense attributes and groups, links). (1) Single-field corruption, enumerated and independent of the seed: for every structural field the independent decoder maps in a seed file (signatures, versions, flags, sizes, counts, addresses, offsets, types, checksums; also inside chunk indexes, heaps and B-trees) each value of a boundary set {0,1,2,3,7,8, max/2, max/2+1, max-1, max, 0xff.., powers of two, file size and +-1, the field's own offset, the address of its own structure (self reference / cycles), the root object address, addresses of other structures} is written into a copy (class cover: for every field class - structure:kind:width, for header messages also the kind of object, its layout and datatype class, e.g. GCOL:size:w8, msg:dataspace:size:w8:dataset:compact:class0 - the complete value set on the first 3 (thorough: 30) seed files that contain the class; plus 40 (thorough: 3200) further (field,value) pairs spread evenly over each seed file). (2) Seeded random mutations: 1-16 bit flips or byte sets, splices between files, truncation, random bodies behind a valid prefix, zeroed and duplicated ranges. Every input is opened and read completely through the public reader inside a process with a 4 GiB address-space limit and a CPU budget of 20 s per input. Violations: recovered panic, death of the process (out of memory, stack overflow, other fatal errors), CPU budget overrun, more than 5 CPU-seconds + ten times the intact seed's, cumulative allocation above 512 MiB + 4096 x file size + twice what the intact seed needs, a canary file that reads differently afterwards. " +
 		"non-trivial: at least one input was run; distinct = (class, seed file, block).",
 	Assumptions:     []string{"inputs beyond the listed mutation classes are not covered: 'all byte strings' is out of reach for run-time observation"},
 	Cases:           c07Cases,
